@@ -60,21 +60,64 @@ def mocCards (q : Qty) (w depth : Nat) : List (List Char) :=
    else
      [tool, tf, tt, cardFree ['M', 'O', 'C', 'O', 'R', 'D', '_', 'F'] (showNat depth)])
 
-/-- `write_fits_header`: the BINTABLE cards, the MOC cards, `END`. -/
+/-- `write_fits_header`: the BINTABLE cards (row width `w / 8` bytes, `nRows` rows), the MOC cards, `END`. -/
+def tableCardsOf (w nRows : Nat) (moc : List (List Char)) : List (List Char) :=
+  [cardFree ['X', 'T', 'E', 'N', 'S', 'I', 'O', 'N'] (quoted ['B', 'I', 'N', 'T', 'A', 'B', 'L', 'E']),
+   cardFixed ['B', 'I', 'T', 'P', 'I', 'X', ' ', ' '] ['8'],
+   cardFixed ['N', 'A', 'X', 'I', 'S', ' ', ' ', ' '] ['2'],
+   cardFixed ['N', 'A', 'X', 'I', 'S', '1', ' ', ' '] (showNat (w / 8)),
+   cardFixed ['N', 'A', 'X', 'I', 'S', '2', ' ', ' '] (showNat nRows),
+   cardFixed ['P', 'C', 'O', 'U', 'N', 'T', ' ', ' '] ['0'],
+   cardFixed ['G', 'C', 'O', 'U', 'N', 'T', ' ', ' '] ['1'],
+   cardFixed ['T', 'F', 'I', 'E', 'L', 'D', 'S', ' '] ['1']] ++ moc ++ [endCard]
+
+/-- A whole file: primary block, table header block, one big-endian word of `w / 8` bytes per row,
+    zero padding to a multiple of 2880. -/
+def fileOf (w : Nat) (moc : List (List Char)) (words : List Nat) : List Nat :=
+  let data := words.flatMap (toBE (w / 8))
+  (block primaryCards ++ block (tableCardsOf w words.length moc)).map Char.toNat
+    ++ data ++ List.replicate (padding data.length) 0
+
 def tableCards (q : Qty) (w depth nRanges : Nat) : List (List Char) :=
-  [cardFree ['X', 'T', 'E', 'N', 'S', 'I', 'O', 'N'] (quoted ['B', 'I', 'N', 'T', 'A', 'B', 'L', 'E']), cardFixed ['B', 'I', 'T', 'P', 'I', 'X', ' ', ' '] ['8'],
-   cardFixed ['N', 'A', 'X', 'I', 'S', ' ', ' ', ' '] ['2'], cardFixed ['N', 'A', 'X', 'I', 'S', '1', ' ', ' '] (showNat (w / 8)),
-   cardFixed ['N', 'A', 'X', 'I', 'S', '2', ' ', ' '] (showNat (nRanges <<< 1)), cardFixed ['P', 'C', 'O', 'U', 'N', 'T', ' ', ' '] ['0'],
-   cardFixed ['G', 'C', 'O', 'U', 'N', 'T', ' ', ' '] ['1'], cardFixed ['T', 'F', 'I', 'E', 'L', 'D', 'S', ' '] ['1']] ++ mocCards q w depth ++ [endCard]
+  tableCardsOf w (nRanges <<< 1) (mocCards q w depth)
 
 /-- The data unit: big-endian words, `(start, end)` per range. -/
 def dataUnit (w : Nat) (rs : List Rng) : List Nat := (encodeWords rs).flatMap (toBE (w / 8))
 
 /-- **The whole file** `to_fits_ivoa(None, None)` writes for a range MOC. -/
 def rangeFile (q : Qty) (w depth : Nat) (rs : List Rng) : List Nat :=
-  let data := dataUnit w rs
-  (block primaryCards ++ block (tableCards q w depth rs.length)).map Char.toNat
-    ++ data ++ List.replicate (padding data.length) 0
+  fileOf w (mocCards q w depth) (encodeWords rs)
+
+/-- The cards of `rangemoc2d_to_fits_ivoa` (ST-MOC, version 2, no id, no type). -/
+def stCards (w d1 d2 : Nat) : List (List Char) :=
+  [cardFree ['M', 'O', 'C', 'V', 'E', 'R', 'S', ' '] (quoted ['2', '.', '0']),
+   cardFree ['M', 'O', 'C', 'D', 'I', 'M', ' ', ' '] (quoted ['T', 'I', 'M', 'E', '.', 'S', 'P', 'A', 'C', 'E']),
+   cardFree ['O', 'R', 'D', 'E', 'R', 'I', 'N', 'G'] (quoted ['R', 'A', 'N', 'G', 'E']),
+   cardFree ['C', 'O', 'O', 'R', 'D', 'S', 'Y', 'S'] (quoted ['C']),
+   cardFree ['T', 'I', 'M', 'E', 'S', 'Y', 'S', ' '] (quoted ['T', 'C', 'B']),
+   cardFree ['M', 'O', 'C', 'T', 'O', 'O', 'L', ' '] (quoted ['C', 'D', 'S', ' ', 'M', 'O', 'C', ' ', 'R', 'u', 's', 't', ' ', 'l', 'i', 'b']),
+   cardFree ['M', 'O', 'C', 'O', 'R', 'D', '_', 'S'] (showNat d2),
+   cardFree ['M', 'O', 'C', 'O', 'R', 'D', '_', 'T'] (showNat d1),
+   cardFree ['T', 'F', 'O', 'R', 'M', '1', ' ', ' '] (quoted (tform w))]
+
+/-- **The whole file** written for an ST-MOC whose rows (time ranges flagged) are `rows`. -/
+def stFile (w d1 d2 : Nat) (rows : List Rng) : List Nat := fileOf w (stCards w d1 d2) (encodeWords rows)
+
+/-- The cards of `hpx_cells_to_fits_ivoa` (NUNIQ encoding). -/
+def nuniqCards (w depth : Nat) : List (List Char) :=
+  [cardFree ['M', 'O', 'C', 'V', 'E', 'R', 'S', ' '] (quoted ['2', '.', '0']),
+   cardFree ['M', 'O', 'C', 'D', 'I', 'M', ' ', ' '] (quoted ['S', 'P', 'A', 'C', 'E']),
+   cardFree ['O', 'R', 'D', 'E', 'R', 'I', 'N', 'G'] (quoted ['N', 'U', 'N', 'I', 'Q']),
+   cardFree ['C', 'O', 'O', 'R', 'D', 'S', 'Y', 'S'] (quoted ['C']),
+   cardFree ['M', 'O', 'C', 'T', 'O', 'O', 'L', ' '] (quoted ['C', 'D', 'S', ' ', 'M', 'O', 'C', ' ', 'R', 'u', 's', 't', ' ', 'l', 'i', 'b']),
+   cardFree ['M', 'O', 'C', 'O', 'R', 'D', '_', 'S'] (showNat depth),
+   cardFree ['M', 'O', 'C', 'O', 'R', 'D', 'E', 'R'] (showNat depth),
+   cardFree ['T', 'F', 'O', 'R', 'M', '1', ' ', ' '] (quoted (tform w)),
+   cardFree ['T', 'T', 'Y', 'P', 'E', '1', ' ', ' '] (quoted ['U', 'N', 'I', 'Q'])]
+
+/-- **The whole file** written for an S-MOC in NUNIQ encoding: one NUNIQ number per row, ascending
+    (one buffer per depth, written in depth order). -/
+def nuniqFile (w depth : Nat) (uniqs : List Nat) : List Nat := fileOf w (nuniqCards w depth) uniqs
 
 /-! ### Reader side -/
 
@@ -94,12 +137,17 @@ def wordsOf (k : Nat) : Nat → List Nat → List Nat
 /-- What the structure of the file determines: the row width and row count declared by cards 4 and 5
     of the table header (`NAXIS1`, `NAXIS2`), and the ranges decoded from the `NAXIS1 × NAXIS2` data
     bytes that follow the two header blocks. -/
-def readStructure (file : List Nat) : Option (Nat × Nat × List Rng) :=
+def readWords (file : List Nat) : Option (Nat × Nat × List Nat) :=
   let hdr := (file.take 5760).map Char.ofNat
   match readUint (getCard hdr 39), readUint (getCard hdr 40) with
   | some n1, some n2 =>
     let data := (file.drop 5760).take (n1 * n2)
-    some (n1, n2, decodeWords (wordsOf n1 n2 data))
+    some (n1, n2, wordsOf n1 n2 data)
   | _, _ => none
+
+def readStructure (file : List Nat) : Option (Nat × Nat × List Rng) :=
+  match readWords file with
+  | some (n1, n2, ws) => some (n1, n2, decodeWords ws)
+  | none => none
 
 end Moc.Fits
